@@ -683,6 +683,7 @@ class Stream(AbstractStream):
 
         """
         if isinstance(stream_data, StreamData):
+            self._imol.empty() # Contents are overwritten below; do not try to fit them into the new phases
             self.phases = stream_data._phases
             imol = stream_data._imol
             if isinstance(imol, MaterialIndexer) and not isinstance(self._imol, MaterialIndexer):
